@@ -306,7 +306,8 @@ def r4(ctx):
     while isinstance(pa, (ast.Attribute, ast.Subscript)) and not (isinstance(pa, ast.Subscript) and u(pa.slice) == "pos"):
         pa = pa.value
     ptab = u(pa.value) if isinstance(pa, ast.Subscript) and u(pa.slice) == "pos" else None
-    for atom, why in ((("pos in components", True), "the position belongs to a component"), (("pos in %s" % (ptab or "phases"), True), "the solver produced a phase for it"), (("is_het", True), "the call is heterozygous")):
+    for atom, why in ((("pos in components", True), "the position belongs to a component"), (("pos in %s" % (ptab or "phases"), True), "the solver produced a phase for it")):
+        # (that the call is heterozygous at the setter is decided path-wise below, whatever the flag is called)
         ok = atom in ga
         if ptab is None and atom[0].startswith("pos in phases") and not ok:
             ok = None  # the phase argument is not a per-position lookup this rule can read
